@@ -1059,11 +1059,13 @@ pub fn pingpong(seed: u64, rounds: u64, budget_ms: u64) -> PingStats {
         let mut round = 0u64;
         loop {
             round += 1;
+            let mut idle = 0u32;
             while sh.go.0.load(Acquire) < round {
                 if sh.stop.load(Relaxed) {
                     return;
                 }
-                std::hint::spin_loop();
+                // on an oversubscribed machine, give the consumer a chance to run
+                spin_or_yield(&mut idle);
             }
             if sh.stop.load(Relaxed) {
                 return;
@@ -1089,11 +1091,12 @@ pub fn pingpong(seed: u64, rounds: u64, budget_ms: u64) -> PingStats {
     let t0 = std::time::Instant::now();
     let mut consumed = sh.notified.0.load(Acquire);
     for round in 1..=rounds {
-        if round % 4096 == 0 && t0.elapsed().as_millis() as u64 > budget_ms {
+        if round % 64 == 0 && t0.elapsed().as_millis() as u64 > budget_ms {
             break;
         }
         st.rounds = round;
         sh.go.0.store(round, Release);
+        let mut idle = 0u32;
         if eager {
             // an executor may poll at any time: poll continuously while the waker thread works
             while sh.done.0.load(Acquire) < round {
@@ -1107,7 +1110,7 @@ pub fn pingpong(seed: u64, rounds: u64, budget_ms: u64) -> PingStats {
                     consumed = n;
                     poll_once!();
                 } else {
-                    std::hint::spin_loop();
+                    spin_or_yield(&mut idle);
                 }
             }
         }
